@@ -511,6 +511,9 @@ func hashEngine(c *Ctx) {
 		{{Name: "", Kind: 'd'}, {Name: "a", Kind: 'f'}, {Name: "a!", Kind: 'f'}, {Name: "a-d", Kind: 'd'}, {Name: "a-d/b", Kind: 'f'}, {Name: "ab", Kind: 'd'}},
 		{{Name: "", Kind: 'd'}, {Name: "a", Kind: 'd'}, {Name: "a/b", Kind: 'f'}, {Name: "a!", Kind: 'f'}, {Name: "a b", Kind: 'd'}, {Name: "a b/c", Kind: 'L', Link: "zz"}},
 		{{Name: "", Kind: 'd'}, {Name: "l", Kind: 'L', Link: "a"}},
+		// arrival in plain path order is not the bucket's order: a directory sorts as name + "/"
+		{{Name: "", Kind: 'd'}, {Name: "lib", Kind: 'd', Perms: 0755}, {Name: "lib.txt", Kind: 'f', Content: []byte("t")}, {Name: "lib0", Kind: 'f'}},
+		{{Name: "", Kind: 'd'}, {Name: "a", Kind: 'd'}, {Name: "a!", Kind: 'f'}, {Name: "a.d", Kind: 'd'}, {Name: "a.d-", Kind: 'L', Link: "a"}, {Name: "a.d/x", Kind: 'f'}, {Name: "a/y", Kind: 'f'}},
 		{{Name: "", Kind: 'd'}},
 		{{Name: "", Kind: 'f', Content: []byte("rootfile")}},
 		{{Name: "", Kind: 'L', Link: "x"}},
@@ -563,8 +566,13 @@ func hashEngine(c *Ctx) {
 		emit("hash spec id " + treeTokens(fsx, idHash))
 		// --- C01: any order of records gives the same answer
 		pre := emit("hash bucket id " + filesetRecs(fsx, ident(len(fsx)), idHash))
-		for s := 0; s < 2; s++ {
-			op := "hash bucket id " + filesetRecs(fsx, c.perm(len(fsx)), idHash)
+		for s := 0; s < 3; s++ {
+			order := c.perm(len(fsx))
+			if s == 2 { // plain path order, the order a sorted directory walk or a sorted archive delivers
+				order = ident(len(fsx))
+				sort.SliceStable(order, func(i, j int) bool { return fsx[order[i]].Name < fsx[order[j]].Name })
+			}
+			op := "hash bucket id " + filesetRecs(fsx, order, idHash)
 			if r := emit(op); r != pre {
 				c.PropFail("order", "record order changed the hash", op)
 			}
